@@ -684,6 +684,8 @@ class Interp(object):
             return r
         if isinstance(v, MSet) and v.ranges:
             raise Undecided("iteration over a set with symbolic ranges")
+        if isinstance(v, MSet) and v.sitems:
+            return iter(list(set.__iter__(v)) + list(v.sitems))
         if isinstance(v, (list, tuple, str, dict, set, frozenset, range, IGen)):
             return iter(v)
         tp = type(v)
